@@ -1,7 +1,9 @@
 package main
 
 import (
+	"fmt"
 	"go/types"
+	"os"
 	"strings"
 
 	"golang.org/x/tools/go/ssa"
@@ -79,6 +81,9 @@ func runC09(p *Program, e *Engine, r *Result, tier string) {
 	sup := false
 	for _, v := range hv {
 		r, ok := v.Instr.(*ssa.Return)
+		if os.Getenv("VERIF_DEBUG") != "" && ok && v.Ctx == hctx {
+			fmt.Fprintf(os.Stderr, "C09.3 return %s zero=%v cond=%s\n", a.P.instrPos(r), zeroEvent(v.Ctx, r.Results[0]), stripIDs(v.Cond.String()))
+		}
 		if !ok || v.Ctx != hctx || len(r.Results) == 0 || !zeroEvent(v.Ctx, r.Results[0]) {
 			continue
 		}
